@@ -63,6 +63,11 @@ func tierDeadline(tier Tier) time.Duration {
 	return 100 * time.Second
 }
 
+// PendingViolations / PendingCoverage let a check add the result of a preliminary enumeration to
+// the outcome RunLedger assembles (keyed by property id).
+var PendingViolations = map[string][]Viol{}
+var PendingCoverage = map[string]map[string]interface{}{}
+
 // RunLedger runs profiles with oracles and assembles a model_checking outcome.
 func RunLedger(property string, tier Tier, profiles []*explore.Profile, require []string, extraAssumptions ...string) int {
 	o := &Outcome{Property: property, Tier: tier, Level: "model_checking", Start: time.Now(),
@@ -141,6 +146,10 @@ func RunLedger(property string, tier Tier, profiles []*explore.Profile, require 
 		"distinct_outcome_classes":      len(classes),
 		"samples":                       samples,
 		"explanation":                   "explicit-state BFS; every transition is one execution of the real ProcessBuiltinFunction (plus the driver's A1-A6 bookkeeping) compared with the reference ledger, so traces_validated_against_impl == transitions by construction",
+	}
+	o.Violations = append(o.Violations, PendingViolations[property]...)
+	for k, v := range PendingCoverage[property] {
+		o.Coverage[k] = v
 	}
 	return Finish(o)
 }
